@@ -409,11 +409,37 @@ func (eng *Engine) initIntrinsics() {
 			hi, lo := mul64(x.c, y.c)
 			return TupleV{Const(hi, 64), Const(lo, 64)}
 		}
+		// symbolic x constant below 2^32: hi = (x1*c + (x0*c)>>32) >> 32 with x = x1*2^32 + x0,
+		// written with extract/zero-extend and shifts only (no bit masks), which the
+		// integer-blasting back end turns into linear div/mod constraints
+		if x.op == OpConst {
+			x, y = y, x
+		}
+		if y.op == OpConst && y.c < 1<<32 {
+			f := ex.f
+			x0 := f.Resize(f.Resize(x, 32, false), 64, false)
+			x1 := f.Bin(OpLShr, x, Const(32, 64))
+			w0 := f.Bin(OpMul, x0, y)
+			t := f.Bin(OpAdd, f.Bin(OpMul, x1, y), f.Bin(OpLShr, w0, Const(32, 64)))
+			return TupleV{f.Bin(OpLShr, t, Const(32, 64)), f.Bin(OpMul, x, y)}
+		}
 		// symbolic operand: the branch-free Go source (32-bit limbs) is executed as is
 		if len(fn.Blocks) == 0 {
 			panic(Unsupported{"bits.Mul64 on symbolic operands (no source body)"})
 		}
 		return ex.callSSA(fr, fn, a, nil)
+	}
+
+	// bits.Add64: the library computes the carry with a bit trick ((x&y | (x|y)&^sum) >> 63);
+	// the equivalent unsigned comparisons keep the query arithmetic (no bitwise operators on
+	// symbolic words), which matters for the integer-blasting back end
+	in["math/bits.Add64"] = func(ex *Exec, _ *frame, _ *ssa.Function, a []Value) Value {
+		x, y, c := a[0].(*Term), a[1].(*Term), a[2].(*Term)
+		f := ex.f
+		s1 := f.Bin(OpAdd, x, y)
+		s := f.Bin(OpAdd, s1, c)
+		carry := f.Or(f.Cmp(OpULt, s1, x), f.Cmp(OpULt, s, s1))
+		return TupleV{s, f.Ite(carry, Const(1, 64), Const(0, 64))}
 	}
 
 	// ---- fmt / errors formatting: opaque text
